@@ -362,3 +362,11 @@ Definition chk_store (ops : list op) (results : list (res nat)) (final : list ob
   let '(s, rs) := store_run store0 ops in
   list_eqb (res_eqb Nat.eqb) rs results &&
   list_eqb obs_eqb (map (observe s) (seq 0 (length (objs s)))) final.
+(* a predicate that looks at the histogram: the face has the largest count *)
+Definition maxcount_pred (o : Qc) (src : hist Qc) : bool :=
+  let m := fold_right Z.max 0 (map snd src) in cnt VO src o =? m.
+Definition chk_explode_maxcount (h : hist Qc) (lim : option rawlimit) (infv : option Qc)
+           (expected : res (hist Qc)) : nat :=
+  cres_code cnt_eqb
+    (explode VO Vzero vadd FUEL h maxcount_pred lim qzero
+             (fun o => match infv with Some v => Some (v * o)%Qc | None => None end)) expected.
